@@ -65,7 +65,7 @@ POOL = ["@", "@@", "union", "extent", "sealed", "deprecated", "print", "assert",
         "bool", "void0", "void8", "void65", "uint0", "uint8", "uint65", "int1", "int64", "float8", "float32", "utf8", "byte", "truncated", "saturated",
         "Base.1.0", "Base.1", "ns.Base.1.0", "ns.Base.9.9", "Svc.1.0", "ns.Svc.1.0", "U.1.0", "ns.sub.Deep.1.2", "sub.Deep.1.2", "Port.1.0", "_offset_",
         "_extent_", "_bit_length_", "min", "max", "count", "%", "/", "*", "+", "-", "!", "|", "^", "&", "||", "&&", "\t", " ", "\n", "\r\n", "\r",
-        "\xe9", "\x00", "\x0c", "\u2028", "'\\u12'", "'\\U00110000'", "'\\ud800'", "'a", "X", "x", "a", "VALUE", "value", "Request", "Response",
+        "void8[2]", "void4[<=3]", "void1[<2] v", "\xe9", "\x00", "\x0c", "\u2028", "'\\u12'", "'\\U00110000'", "'\\ud800'", "'a", "X", "x", "a", "VALUE", "value", "Request", "Response",
         "Svc.1.0._extent_", "Svc.1.0._bit_length_", "Svc.1.0.REQ_CONST", "Svc.1.0 == Svc.1.0", "Svc.1.0[2]", "Svc.1.0.Request", "1/0", "{}", "{1, true}",
         "{1}.min.min", "0.0", "1 % 0", "'' + 1", "uint8[1]", "uint8 == uint8", "bool.x", "1e-400", "1e400"]
 
@@ -252,6 +252,68 @@ def literal_cases(rng, n_random):
     return out
 
 
+def void_array_cases():
+    out = []
+    for fld in ("void8[2] x", "void4[<=3] gap", "void1[<2] v", "void64[1] w", "void8[2]", "void3[<=1]"):
+        for text in (fld + "\n@sealed\n", "uint8 a\n" + fld + "\n@extent 64\n", "@union\nuint8 a\n" + fld + "\n@sealed\n",
+                     "uint8 a\n@sealed\n---\n" + fld + "\n@sealed\n", fld + "\n@sealed\n---\n@sealed\n", "@print " + fld.split(" ")[0] + "\n@sealed\n",
+                     "uint8 a\n" + fld + "\n@print _offset_\n@sealed\n"):
+            out.append(ns_case({"A.1.0.dsdl": text}, "void-arrays"))
+    return out
+
+
+FINALIZE_DEFECTS = [  # (file name, text): parses fine, fails when the composite is built
+    ("Z.1.0.dsdl", "uint8 x\n"),                                  # neither @sealed nor @extent
+    ("Z.1.0.dsdl", "@union\nuint8 x\n@sealed\n"),                # single-variant union
+    ("Z.1.0.dsdl", "uint8 x\nuint16 x\n@sealed\n"),              # attribute name collision
+    ("Z.1.0.dsdl", "uint64 x\n@extent 8\n"),                      # extent too small
+    ("Z.1.0.dsdl", "uint8 x\n@extent 12\n"),                      # extent not a multiple of 8
+    ("Z.1.0.dsdl", "byte x\n@sealed\n"),                          # aggregation
+    ("Z.1.0.dsdl", "utf8[4] s\n@sealed\n"),                       # aggregation
+    ("9999.Z.1.0.dsdl", "uint8 x\n@sealed\n"),                    # unregulated fixed port-ID
+    ("Z.1.0.dsdl", "uint8 x\n@sealed\n---\nuint8 y\n"),          # response without mode
+    ("Z.1.0.dsdl", "uint8 x\n@sealed\n---\n@union\nuint8 y\n@sealed\n"),
+    ("Z_.1.0.dsdl", "uint8 x\n@sealed\n"),                        # bad short name
+    ("Z.0.0.dsdl", "uint8 x\n@sealed\n"),                         # bad version
+    ("Z.1.0.dsdl", "uint8 _x\n@sealed\n"),                        # bad attribute name (deferred attribute construction)
+    ("Z.1.0.dsdl", "uint8 X = 256\n@sealed\n"),                   # bad constant (detected while parsing: control)
+    ("Z.1.0.dsdl", "uint8 x\n@assert false\n@sealed\n"),         # control
+    ("Z.1.0.dsdl", "uint8 x x\n@sealed\n"),                       # syntax error: control
+]
+
+
+def dependency_cases():
+    """A definition that is invalid only when it is finalised, reached for the first time as a dependency: the error
+    must name the file with the defect, not the referrer."""
+    out = []
+    for fname, text in FINALIZE_DEFECTS:
+        stem = fname[:-5]
+        parts = stem.split(".")
+        short, ver = (parts[1], parts[2] + "." + parts[3]) if len(parts) == 4 else (parts[0], parts[1] + "." + parts[2])
+        ref = "%s.%s" % (short, ver)
+        for use in ("%s d", "%s[2] d", "%s[<=2] d"):
+            # the referrer sorts before the defective definition
+            files = {"A.1.0.dsdl": (use % ref) + "\n@sealed\n", fname: text}
+            out.append(dict(ns_case(files, "dependency-finalize"), expect_path="ns/" + fname))
+            out.append(dict(ns_case(files, "dependency-finalize"), expect_path="ns/" + fname, api="files"))
+            # two levels
+            files3 = {"A.1.0.dsdl": "M.1.0 m\n@sealed\n", "M.1.0.dsdl": (use % ref) + "\n@sealed\n", fname: text}
+            out.append(dict(ns_case(files3, "dependency-finalize"), expect_path="ns/" + fname))
+            # in a nested namespace, referred to by its full name
+            filesn = {"A.1.0.dsdl": (use % ("ns.sub." + ref)) + "\n@sealed\n", "sub/" + fname: text}
+            out.append(dict(ns_case(filesn, "dependency-finalize"), expect_path="ns/sub/" + fname))
+            # the defective definition lives only in a lookup directory
+            c = ns_case({"A.1.0.dsdl": (use % ("lk." + ref)) + "\n@sealed\n"}, "dependency-finalize")
+            c["lookup"] = {"lk": {fname: text}}
+            c["expect_path"] = "lk/" + fname
+            out.append(c)
+        # used in an expression only
+        out.append(dict(ns_case({"A.1.0.dsdl": "@print %s._extent_\n@sealed\n" % ref, fname: text}, "dependency-finalize"), expect_path="ns/" + fname))
+        # control: the defective definition sorts first
+        out.append(dict(ns_case({"Zz.1.0.dsdl": "%s d\n@sealed\n" % ref, fname: text}, "dependency-finalize"), expect_path="ns/" + fname))
+    return out
+
+
 def control_cases():
     out = []
     ctrl = list(range(0, 32)) + [127, 0x85, 0xA0, 0x2028, 0x2029, 0xFEFF, 0x200B, 0xFFFF, 0x1F600, 0x0301]
@@ -396,7 +458,7 @@ def generate(rng, tier):
         streams.append(s)
 
     add(ns_case(dict(NS), "baseline"), "corpus")
-    for c in service_cases() + nesting_cases() + control_cases() + limit_cases() + literal_cases(rng, 100 if tier == "quick" else 2000):
+    for c in service_cases() + nesting_cases() + control_cases() + limit_cases() + void_array_cases() + dependency_cases() + literal_cases(rng, 100 if tier == "quick" else 2000):
         add(c, "targeted")
     for c in sibling_cases(rng, 80 if tier == "quick" else 2000):
         add(c, "targeted")
@@ -475,11 +537,12 @@ def run_impl(cases):
         signal.alarm(0)
 
     base = os.path.join(os.environ["VERIF_SCRATCH"], "c13_%d" % os.getpid())
-    out = []
-    for idx, c in enumerate(cases):
-        root = os.path.join(base, "r")
-        shutil.rmtree(base, ignore_errors=True)
+    shutil.rmtree(base, ignore_errors=True)
+
+    def run_one(c, root):
+        """Materialise the case under root (a directory never used before in this process) and read it."""
         os.makedirs(root)
+        lookups = []
         try:
             if c["k"] == "expr":
                 ns = os.path.join(root, "ns")
@@ -499,21 +562,28 @@ def run_impl(cases):
                 for name, bs in c.get("bytes", {}).items():
                     with open(os.path.join(ns, name), "wb") as f:
                         f.write(bytes(bs))
+                for lkname, files in c.get("lookup", {}).items():
+                    lk = os.path.join(root, lkname)
+                    lookups.append(lk)
+                    for name, text in files.items():
+                        p = os.path.join(lk, name)
+                        os.makedirs(os.path.dirname(p), exist_ok=True)
+                        with open(p, "w", encoding="utf8", newline="") as f:
+                            f.write(text)
         except (OSError, UnicodeEncodeError, ValueError) as ex:
-            out.append({"skip": type(ex).__name__})
-            continue
+            return {"skip": type(ex).__name__}
         real_root = os.path.realpath(root)
         arm(5)
         try:
             if c.get("api") == "files" and (c.get("files") or c.get("bytes")):
                 paths = sorted(os.path.join(ns, name) for name in list(c.get("files", {})) + list(c.get("bytes", {})))
-                pydsdl.read_files(paths, [ns], print_output_handler=lambda p, l, t: None)
+                pydsdl.read_files(paths, [ns], lookups, print_output_handler=lambda p, l, t: None)
             else:
-                pydsdl.read_namespace(ns, [], print_output_handler=lambda p, l, t: None)
+                pydsdl.read_namespace(ns, lookups, print_output_handler=lambda p, l, t: None)
             disarm()
-            out.append({"out": "model"})
+            return {"out": "model"}
         except _Alarm:
-            out.append({"timeout": True})
+            return {"timeout": True}
         except pydsdl.InvalidDefinitionError as ex:
             disarm()
             o = {"out": "CInvalidDefinition"}
@@ -523,8 +593,12 @@ def run_impl(cases):
             else:
                 rp = os.path.realpath(str(p))
                 if not (rp == real_root or rp.startswith(real_root + os.sep)):
-                    o["pred_fail"] = "%s with a path outside the namespace" % type(ex).__name__
-            out.append(o)
+                    o["pred_fail"] = "%s with a path outside the directories read by this call" % type(ex).__name__
+                elif not os.path.lexists(rp):
+                    o["pred_fail"] = "%s with a path that does not exist" % type(ex).__name__
+                elif c.get("expect_path") and rp != os.path.realpath(os.path.join(root, c["expect_path"])):
+                    o["pred_fail"] = "%s names %s, the offending file is %s" % (type(ex).__name__, os.path.relpath(rp, real_root), c["expect_path"])
+            return o
         except BaseException as ex:  # pylint: disable=broad-except
             disarm()
             cls = V.classify(ex) if isinstance(ex, Exception) else "COther"
@@ -535,7 +609,33 @@ def run_impl(cases):
             o = {"out": cls, "pred_fail": "%s%s escaped" % (type(ex).__name__, ("(" + culprit + ")") if culprit else ""), "culprit": culprit}
             if isinstance(ex, pydsdl.InternalError) and "integer string conversion" in str(ex):
                 o["hint"] = "int-max-str-digits"  # only used to classify the open finding F21, never for a verdict
-            out.append(o)
+            return o
+
+    out = []
+    for idx, c in enumerate(cases):
+        root = os.path.join(base, "r%d" % idx)
+        out.append(run_one(c, root))
+        disarm()
+        shutil.rmtree(root, ignore_errors=True)
+    # history: the same texts offered again from other directories must be judged the same way and every error must name
+    # the directory read by THAT call (a sample of the cheap rejected/accepted cases of this process)
+    again = [i for i, (c, o) in enumerate(zip(cases, out))
+             if o.get("out") in ("CInvalidDefinition", "model") and not o.get("pred_fail")
+             and (c["k"] == "expr" or sum(len(t) for t in c.get("files", {}).values()) < 6000)]
+    step = max(1, len(again) // 150)
+    for i in again[::step]:
+        root = os.path.join(base, "again%d" % i)
+        o2 = run_one(cases[i], root)
+        disarm()
+        shutil.rmtree(root, ignore_errors=True)
+        if o2.get("timeout") or o2.get("skip"):
+            continue
+        if o2.get("pred_fail"):
+            out[i]["pred_fail"] = "when the same texts are read again from another directory in the same process: " + o2["pred_fail"]
+            out[i]["culprit"] = o2.get("culprit", "")
+            out[i]["repeat_out"] = o2.get("out")
+        elif o2.get("out") != out[i].get("out"):
+            out[i]["pred_fail"] = "outcome depends on history: %s first, %s when read again from another directory" % (out[i].get("out"), o2.get("out"))
     disarm()
     shutil.rmtree(base, ignore_errors=True)
     return out
